@@ -582,6 +582,38 @@ func main() {
 		fmt.Println("MCGEN-LOAD-FAILED", err)
 		os.Exit(3)
 	}
+	// a worker-count constant that the tree uses where only a constant will do (an array length, another constant's
+	// value) stays a constant: that stage then always runs with its built-in number of workers
+	constOnly := map[string]bool{}
+	for _, p := range pkgs {
+		for _, f := range p.Syntax {
+			mark := func(e ast.Expr) {
+				ast.Inspect(e, func(n ast.Node) bool {
+					if idn, ok := n.(*ast.Ident); ok && strings.HasPrefix(idn.Name, "worker") && strings.HasSuffix(idn.Name, "Num") {
+						constOnly[idn.Name] = true
+					}
+					return true
+				})
+			}
+			ast.Inspect(f, func(n ast.Node) bool {
+				switch x := n.(type) {
+				case *ast.ArrayType:
+					if x.Len != nil {
+						mark(x.Len)
+					}
+				case *ast.GenDecl:
+					if x.Tok == token.CONST {
+						for _, sp := range x.Specs {
+							for _, v := range sp.(*ast.ValueSpec).Values {
+								mark(v)
+							}
+						}
+					}
+				}
+				return true
+			})
+		}
+	}
 	for _, p := range pkgs {
 		if len(p.Errors) > 0 {
 			fmt.Println("MCGEN-LOAD-FAILED (the tree does not type-check):", p.Errors)
@@ -604,6 +636,9 @@ func main() {
 			out := buf.Bytes()
 			out = workerConst.ReplaceAllFunc(out, func(m []byte) []byte {
 				sm := workerConst.FindSubmatch(m)
+				if constOnly[string(sm[1])] {
+					return m
+				}
 				workerVars = append(workerVars, string(sm[1]))
 				return []byte("var " + string(sm[1]) + " = " + string(sm[2]))
 			})
